@@ -121,3 +121,44 @@ func VerifC13_TypeTable() {
 		verifapi.Assert(desc.SDP == sdpWant, "the SDP text is kept")
 	}
 }
+
+// ---- round trip: Deserialize(Serialize(d)) == d --------------------------------------------
+//
+// encoding/json is reflection code the executor cannot run. Its part in this law is the mapping
+// struct -> JSON object -> map[string]interface{}; verifapi.JSONMembers computes that mapping
+// from the struct tags of whatever value the code under test hands to json.Marshal, and the
+// Unmarshal stub yields it. Natively both functions are the real library.
+
+var verifMarshalled interface{}
+
+func verifJSONMarshalRT(v interface{}) ([]byte, error) {
+	verifapi.Count("marshal")
+	verifMarshalled = v
+	return []byte("J"), nil
+}
+
+func verifJSONUnmarshalRT(data []byte, v interface{}) error {
+	verifapi.Assert(verifapi.Counted("marshal") == 1, "round trip: exactly one document was marshalled")
+	*(v.(*map[string]interface{})) = verifapi.JSONMembers(verifMarshalled, func(f interface{}) interface{} {
+		// pion: func (t SDPType) MarshalJSON() ([]byte, error) { return json.Marshal(t.String()) }
+		return f.(webrtc.SDPType).String()
+	})
+	return nil
+}
+
+func VerifC13_RoundTrip() {
+	t := webrtc.SDPType(verifapi.Concrete(verifapi.Choice("sdptype", 4)) + 1)
+	sdp := verifapi.String("sdp", int(verifapi.Param("SDPLEN", 6)))
+	for i := 0; i < len(sdp); i++ {
+		verifapi.Assume(sdp[i] < 0x80) // valid UTF-8 (JSON strings are Unicode text)
+	}
+	in := &webrtc.SessionDescription{Type: t, SDP: sdp}
+	s, err := SerializeSessionDescription(in)
+	verifapi.Assert(err == nil, "serialising a description of a known type succeeds")
+	out, err := DeserializeSessionDescription(s)
+	verifapi.Cover("round trip returned")
+	verifapi.Assert(err == nil && out != nil, "deserialising a serialised description succeeds")
+	verifapi.Assert(out.Type == t, "round trip keeps the SDP type")
+	verifapi.Assert(out.SDP == sdp, "round trip keeps the SDP text")
+	verifapi.Assert(in.Type == t && in.SDP == sdp, "serialising does not modify the description")
+}
